@@ -3,7 +3,7 @@
     number type (nat, N, Z, positive) stays the extracted inductive; no Extract Constant of ours. *)
 Require Extraction.
 Require Import ExtrOcamlBasic.
-From NV Require Import Machine.Dfa Machine.Sem Machine.NoSpin Machine.Bisim Machine.BBisim Machine.BSearch Machine.Search Machine.Chunk Machine.FailPos Machine.Eof Expr.CArith CSkel.Store CSkel.Run CSkel.Safety.
+From NV Require Import Machine.Dfa Machine.Sem Machine.NoSpin Machine.Bisim Machine.BBisim Machine.BSearch Machine.Search Machine.Chunk Machine.FailPos Machine.FailSticky Machine.Eof Expr.CArith CSkel.Store CSkel.Run CSkel.Safety.
 Extraction Language OCaml.
 Extraction "machine.ml" norm_ok yield_ok spin_witness dfa_bisim_run dfa_bisim_check dfa_bsearch dfa_equiv_cert nospin_cert step_tree leaves
-  cstart cfeed cend ceval_tree ceval vals_ok dfa_wf no_stuck_ok stuck_witness appends_guarded end_safe end_witness dfa_slack_run dfa_slack_cert fail_entry_ok fail_entry_witness dfa_bisim_run_on dfa_slack_run_on dfa_equiv_cert_on dfa_slack_cert_on.
+  cstart cfeed cend ceval_tree ceval vals_ok dfa_wf no_stuck_ok stuck_witness appends_guarded end_safe end_witness dfa_slack_run dfa_slack_cert fail_entry_ok fail_entry_witness fail_sticky_ok fail_sticky_witness dfa_bisim_run_on dfa_slack_run_on dfa_equiv_cert_on dfa_slack_cert_on.
